@@ -176,6 +176,8 @@ Definition chkE_with (codes : list Z) (c : ecase) : verdict :=
    request is well-formed and authorised (3), and every answer correct whatever preceded it *)
 Definition chkE13 := chkE_with [1; 2; 3; 4; 5; 6; 11; 12; 13; 14; 21; 22; 23; 24; 25; 26; 31; 32; 33; 198; 199].
 Definition chkE09 := chkE_with [2; 4; 5].
+(* C02: the selection rules on the logic-level answer AND that exactly the selected peers reach the wire *)
+Definition chkE02 := chkE_with [5; 6; 21; 22; 23; 24; 25; 26].
 (* C04, concurrent datagrams: every response is the one its own request calls for *)
 Definition chkE04 := chkE_with [1; 2; 4; 5; 12].
 Definition chkE08 := chkE_with [6].
